@@ -1,6 +1,6 @@
 (* C07 — Chunk store round trip and chunk addressing.  Only statements here. *)
 From Coq Require Import ZArith List Bool.
-From KV Require Import Base.Sx Gen.Generated Model.Chunks Model.ChunksMulti Proofs.ChunksP Proofs.ChunksRtP Proofs.ChunksPruneP Proofs.ChunksPrunedReadP Proofs.ChunksTopP Proofs.ChunksGenP Proofs.ChunksMultiP Model.ChunksGenPy Proofs.ChunksGenPyP Proofs.ChunksLinkP Proofs.ChunksHistP.
+From KV Require Import Base.Sx Gen.Generated Model.Chunks Model.ChunksMulti Proofs.ChunksP Proofs.ChunksRtP Proofs.ChunksPruneP Proofs.ChunksPrunedReadP Proofs.ChunksTopP Proofs.ChunksGenP Proofs.ChunksMultiP Model.ChunksGenPy Proofs.ChunksGenPyP Proofs.ChunksLinkP Proofs.ChunksHistP Model.ChunksUrl Proofs.ChunksUrlP.
 Import ListNotations.
 Open Scope Z_scope.
 
@@ -507,3 +507,121 @@ Example C07_chunk_history_example :
   /\ get_chunk st [120] [(4, 6)] 7 false = Err ENotFound
   /\ is_complete st [120] = true /\ is_complete st [121] = false.
 Proof. vm_compute. repeat split; reflexivity. Qed.
+
+(* ---- WHERE a chunk ends up on the S3 back-end (Model/ChunksUrl.v): store URL x array name x chunk index -> object ----
+   make_url_path bp rel = path of S3ChunkStore.make_url(rel) for a store whose URL has the path bp (quote, urljoin,
+   _normalise_bucket_name); object_path = what the endpoint sees (percent-decoded); chunk_rel arr starts = chunk name +
+   ".npy".  Two URL modes: store_prefix bp = [] (bare endpoint, bucket = first component of the array name) and
+   store_prefix bp <> [] (the store URL contains the bucket, names are relative to it).
+   Guard of every statement (hence `_partial`): wf_name = every '/'-separated component of the ARRAY name is non-empty
+   and neither "." nor ".." (ASCII text); wf_store = store path empty or absolute, no dot segments, no characters that
+   need quoting.  Outside the guard the statement is false: C07_s3_url_injective_refuted (finding C07-F7). *)
+
+(* the object is the documented one: directory prefix of the store URL + the name VERBATIM ("<path>/<idx>.npy"),
+   underscores -> dashes in the first component (the bucket) and nowhere else *)
+Theorem C07_s3_object_documented_partial : forall bp arr starts, wf_store bp = true -> wf_name arr = true ->
+  object_path bp (chunk_rel arr starts) = spec_object_path bp (chunk_rel arr starts).
+Proof. exact chunk_object_documented. Qed.
+Print Assumptions C07_s3_object_documented_partial.
+
+Theorem C07_s3_any_object_documented_partial : forall bp rel, wf_store bp = true -> wf_name rel = true ->
+  object_path bp rel = spec_object_path bp rel.
+Proof. exact object_documented. Qed.
+Print Assumptions C07_s3_any_object_documented_partial.
+
+(* bucket in the store URL: the object URL is injective in (array name, chunk start tuple) *)
+Theorem C07_s3_url_injective_bucket_in_url_partial : forall bp a1 s1 a2 s2,
+  wf_store bp = true -> store_prefix bp <> [] -> wf_name a1 = true -> wf_name a2 = true ->
+  make_url_path bp (chunk_rel a1 s1) = make_url_path bp (chunk_rel a2 s2) -> a1 = a2 /\ s1 = s2.
+Proof. exact chunk_url_injective_url_bucket. Qed.
+Print Assumptions C07_s3_url_injective_bucket_in_url_partial.
+
+(* bucket as first component of the array name: equal URLs name the same bucket up to '_' / '-' (the documented
+   normalisation), and the same (array name, start tuple) when the buckets are spelled alike or contain no underscore *)
+Theorem C07_s3_url_injective_bucket_in_name_partial : forall bp a1 s1 a2 s2,
+  wf_store bp = true -> store_prefix bp = [] -> wf_name a1 = true -> wf_name a2 = true ->
+  make_url_path bp (chunk_rel a1 s1) = make_url_path bp (chunk_rel a2 s2) ->
+  dash (name_bucket a1) = dash (name_bucket a2)
+  /\ (name_bucket a1 = name_bucket a2 -> a1 = a2 /\ s1 = s2)
+  /\ (~ In cs_bucket_from (name_bucket a1) -> ~ In cs_bucket_from (name_bucket a2) -> a1 = a2 /\ s1 = s2).
+Proof. exact chunk_url_injective_name_bucket. Qed.
+Print Assumptions C07_s3_url_injective_bucket_in_name_partial.
+
+(* ... for ANY relative names (chunks, completion markers, ...) *)
+Theorem C07_s3_object_injective_bucket_in_url_partial : forall bp r1 r2, wf_store bp = true -> store_prefix bp <> [] ->
+  wf_name r1 = true -> wf_name r2 = true -> object_path bp r1 = object_path bp r2 -> r1 = r2.
+Proof. exact object_inj_url_bucket. Qed.
+Print Assumptions C07_s3_object_injective_bucket_in_url_partial.
+
+Theorem C07_s3_object_injective_bucket_in_name_partial : forall bp r1 r2, wf_store bp = true -> store_prefix bp = [] ->
+  wf_name r1 = true -> wf_name r2 = true -> object_path bp r1 = object_path bp r2 ->
+  dash (name_bucket r1) = dash (name_bucket r2) /\ snd (split1 47 r1) = snd (split1 47 r2).
+Proof. exact object_inj_name_bucket. Qed.
+Print Assumptions C07_s3_object_injective_bucket_in_name_partial.
+
+(* percent-encoding is undone by the endpoint (ASCII names) *)
+Theorem C07_s3_unquote_quote : forall s, ascii s = true -> unquote (quote s) = s.
+Proof. exact unquote_quote. Qed.
+Print Assumptions C07_s3_unquote_quote.
+
+(* several arrays in ONE store, any history of put_chunk / get_chunk / mark_complete / is_complete over any array
+   names: every get returns the LAST put addressed to the same (array name, start tuple) - no array overwrites another -
+   and is_complete tells whether THAT array was marked.  S3 with the bucket in the store URL: *)
+Theorem C07_s3_history_bucket_in_url_partial : forall bp ops, wf_store bp = true -> store_prefix bp <> [] ->
+  (forall o, In o ops -> wf_name (op_arr o) = true) ->
+  uanswers (object_path bp) ops [] = spec_answers ops [].
+Proof. exact s3_history_url_bucket. Qed.
+Print Assumptions C07_s3_history_bucket_in_url_partial.
+
+(* S3 with the bucket in the names: arrays of one bucket, or of buckets without underscores *)
+Theorem C07_s3_history_bucket_in_name_partial : forall bp ops b, wf_store bp = true -> store_prefix bp = [] ->
+  (forall o, In o ops -> wf_name (op_arr o) = true /\ name_bucket (op_arr o) = b) ->
+  uanswers (object_path bp) ops [] = spec_answers ops [].
+Proof. exact s3_history_name_bucket. Qed.
+Print Assumptions C07_s3_history_bucket_in_name_partial.
+
+Theorem C07_s3_history_dash_buckets_partial : forall bp ops, wf_store bp = true -> store_prefix bp = [] ->
+  (forall o, In o ops -> wf_name (op_arr o) = true /\ ~ In cs_bucket_from (name_bucket (op_arr o))) ->
+  uanswers (object_path bp) ops [] = spec_answers ops [].
+Proof. exact s3_history_dash_buckets. Qed.
+Print Assumptions C07_s3_history_dash_buckets_partial.
+
+(* keys used verbatim (NPY file paths relative to the store directory): any names *)
+Theorem C07_verbatim_history : forall ops, uanswers (fun r => r) ops [] = spec_answers ops [].
+Proof. exact verbatim_history. Qed.
+Print Assumptions C07_verbatim_history.
+
+(* generic: ANY key function that is injective on the names in use *)
+Theorem C07_keyed_history : forall (kf : str -> str) (P : str -> Prop),
+  (forall r1 r2, P r1 -> P r2 -> kf r1 = kf r2 -> r1 = r2) ->
+  forall ops, (forall o, In o ops -> P (op_rel o)) -> uanswers kf ops [] = spec_answers ops [].
+Proof. exact keyed_history. Qed.
+Print Assumptions C07_keyed_history.
+
+(* finding C07-F7: an empty, "." or ".." component in an array name aliases another array on S3 (urljoin collapses
+   them): "a//b", "a/./b", "c/../a/b" all land on the objects of "a/b"; the later put silently wins *)
+Theorem C07_s3_url_injective_refuted :
+  let bp := [47; 98; 107; 47] in
+  let a1 := [97; 47; 47; 98] in let a2 := [97; 47; 98] in let a3 := [97; 47; 46; 47; 98] in
+  let a4 := [99; 47; 46; 46; 47; 97; 47; 98] in
+  wf_store bp = true /\ wf_name a2 = true /\ a1 <> a2 /\
+  object_path bp (chunk_rel a1 [0]) = object_path bp (chunk_rel a2 [0]) /\
+  object_path bp (chunk_rel a3 [0]) = object_path bp (chunk_rel a2 [0]) /\
+  object_path bp (chunk_rel a4 [0]) = object_path bp (chunk_rel a2 [0]) /\
+  uanswers (object_path bp) [UPut a1 [0] 1; UPut a2 [0] 2; UGet a1 [0]] [] = [0; 0; 2] /\
+  spec_answers [UPut a1 [0] 1; UPut a2 [0] 2; UGet a1 [0]] [] = [0; 0; 1].
+Proof. exact illformed_names_alias. Qed.
+Print Assumptions C07_s3_url_injective_refuted.
+
+(* the documented aliasing of bucket spellings exists only when the bucket is part of the name *)
+Example C07_s3_bucket_underscore_alias :
+  let x1 := [98; 95; 107; 47; 120] in let x2 := [98; 45; 107; 47; 120] in
+  make_url_path [] (chunk_rel x1 [0]) = make_url_path [] (chunk_rel x2 [0])
+  /\ make_url_path [47; 98; 47] (chunk_rel x1 [0]) <> make_url_path [47; 98; 47] (chunk_rel x2 [0]).
+Proof. exact bucket_underscore_alias. Qed.
+
+(* array "w_c" relative to bucket "b": object "/b/w_c/00000.npy" (underscore in the key untouched) *)
+Example C07_s3_url_bucket_key_verbatim_example :
+  object_path [47; 98; 47] (chunk_rel [119; 95; 99] [0])
+  = [47; 98; 47; 119; 95; 99; 47; 48; 48; 48; 48; 48; 46; 110; 112; 121].
+Proof. exact url_bucket_key_verbatim_example. Qed.
